@@ -106,6 +106,9 @@ UnpairedFailed(e) ==
     LET sa == Moments(e.data)  sb == Moments(e.datab) IN
     IF e.out.tag = "panic" THEN {"C04.no_panic"}
     ELSE IF sa.n < 2 \/ sb.n < 2 THEN {c \in {"C04.domain"} : ~(e.out.tag = "err" /\ e.out.variant = "TooFewSamples")}
+    \* two constant samples: the effective degrees of freedom are 0/0 - the documented outcome is InvalidInputData
+    ELSE IF DySign(sa.v) = 0 /\ DySign(sb.v) = 0 /\ ~OkIv(e)
+    THEN {c \in {"C04.domain"} : ~(e.out.tag = "err" /\ e.out.variant = "InvalidInputData")}
     ELSE IF ~OkIv(e) THEN {"C04.domain"}
     ELSE IF "designed" \in DOMAIN e
     THEN \* a designed pair: e.designed indexes the table; exchanged events see the samples swapped
@@ -118,7 +121,8 @@ UnpairedFailed(e) ==
                   \/ (HasLoB(e) /\ ~DesignedBoundOK(sa, sb, FDy(e.out.iv.lo), "lo", e.conf.kind, e.li, PrecE(e), e.designed))
                   \/ (HasHiB(e) /\ ~DesignedBoundOK(sa, sb, FDy(e.out.iv.hi), "hi", e.conf.kind, e.li, PrecE(e), e.designed))})
     ELSE {c \in {"C04.shape"} : ~ShapeOK(e)}
-         \cup (IF ~ShapeOK(e) \/ (DySign(sa.v) = 0 /\ DySign(sb.v) = 0) THEN {} ELSE
+         \cup (IF ~ShapeOK(e) \/ (DySign(sa.v) = 0 /\ DySign(sb.v) = 0)
+                  \/ ~WellCond(sa, PrecE(e)) \/ ~WellCond(sb, PrecE(e)) THEN {} ELSE
                LET nr == UnpairedNuRange(sa, sb) IN
                IF nr.floor < 1 \/ nr.floor + 1 > DenseNu THEN {}
                ELSE {c \in {"C04.unpaired_bound"} :
@@ -196,6 +200,7 @@ Clauses1(e) ==
                                     ELSE IF OkIv(e) THEN {"C04.shape", "C04.unpaired_bound"}
                                        \cup (LET sa == Moments(e.data)  sb == Moments(e.datab) IN
                                              IF DySign(sa.v) = 0 /\ DySign(sb.v) = 0 THEN {"C04.unpaired_both_constant"}
+                                             ELSE IF ~WellCond(sa, PrecE(e)) \/ ~WellCond(sb, PrecE(e)) THEN {"C04.unpaired_outside_conditioning_domain"}
                                              ELSE LET nr == UnpairedNuRange(sa, sb) IN
                                                   IF nr.floor < 1 \/ nr.floor + 1 > DenseNu THEN {"C04.unpaired_nu_outside_table"}
                                                   ELSE {"C04.unpaired_bound_evaluated"}
